@@ -20,7 +20,7 @@ def _init():
 
 
 def _call(fn_path, arg):
-    faulthandler.dump_traceback_later(RUN_WATCHDOG_S, exit=True)
+    faulthandler.dump_traceback_later(int(os.environ.get("VERIF_RUN_WATCHDOG", RUN_WATCHDOG_S)), exit=True)
     try:
         mod, name = fn_path.rsplit(":", 1)
         import importlib
